@@ -11,7 +11,9 @@ import "verif/exech/driver"
 func main() {
 	q := []driver.ProbeConfig{driver.CfgDefault}
 	t := []driver.ProbeConfig{driver.CfgDefault, driver.CfgFollowSchema, driver.CfgWorker2}
-	driver.SchedCheck("C13", q, t, map[string]int{"quick": 2, "thorough": 2}, []string{
+	sq := []driver.ProbeConfig{driver.CfgDefault}
+	st := []driver.ProbeConfig{driver.CfgDefault, driver.CfgWorker2}
+	driver.SchedCheck2("C13", q, t, sq, st, map[string]int{"quick": 2, "thorough": 2}, []string{
 		"payloads are taken from the response function directly (the multipart/mixed framing of the same payloads is C12's subject)",
 		"the exception clause (null propagation stops at the group's object) is applied where a delivered group's data is null",
 		"labels: unlabelled groups carry the empty label",
